@@ -798,9 +798,13 @@ impl SurfGen {
             } else {
                 leaf(r)
             };
-            // an improper tail that is itself a list literal would just be a longer list: keep it a non-list
+            // a tail that is itself a list literal (`[a, b | []]`, `[a | [b, c]]`) is accepted by the macro and denotes the
+            // longer list: written as such half of the time (seeded change C14-k: a literal `[]` tail became an element)
             match tl {
-                ST::List(_) | ST::Improper(..) => ST::List(es),
+                ST::List(items) if r.chance(1, 2) => ST::Improper(es, Box::new(ST::List(items))),
+                ST::List(_) | ST::Improper(..) => {
+                    if r.chance(1, 3) { ST::Improper(es, Box::new(ST::List(vec![]))) } else { ST::List(es) }
+                }
                 tl => ST::Improper(es, Box::new(tl)),
             }
         } else {
